@@ -34,4 +34,19 @@ theorem countOf_mapH_comm (le : γ → γ → Bool) (op : α → α → γ) (hop
   have : (fun y x => op x y) = op := by funext y x; exact hop x y
   rw [this]
 
+/-- **associativity**: for an associative operator, `(a op b) op c` and `a op (b op c)` have the
+same counts -/
+theorem countOf_mapH_assoc [DecidableEq α] (le : α → α → Bool) (op : α → α → α)
+    (hop : ∀ x y w, op (op x y) w = op x (op y w)) (a b c : Hist α) (z : α) :
+    countOf z (mapH le op (mapH le op a b) c) = countOf z (mapH le op a (mapH le op b c)) := by
+  rw [countOf_mapH, wsum_mapH, countOf_mapH]
+  apply wsum_congr
+  intro x _
+  rw [wsum_mapH]
+  apply wsum_congr
+  intro y _
+  apply wsum_congr
+  intro w _
+  rw [hop]
+
 end Dyce
